@@ -38,7 +38,11 @@ Inductive item :=
 | IClass (name : string) (members : list item)
 | INew (jtype name : string) (mk : nat)                  (* new jtype(name) { <marker> } *)
 | IGenPriv (jtype name : string) (mk : nat)              (* a built-in function calling add_private_json(jtype, name, <marker>) *)
-| IGenJson (jtype name : string) (mk : nat).             (* a built-in function calling add_json(jtype, name, <marker>) *)
+| IGenJson (jtype name : string) (mk : nat)              (* a built-in function calling add_json(jtype, name, <marker>) *)
+| IAt (pre : string) (inner : list item).                (* (round 3) the expansion of a call of a @lazy function that was declared under
+                                                            the class prefix `pre`: PreFunction.handle_lazy parses the template's body with
+                                                            the TEMPLATE's prefix (self.prefix), whatever class the call is written in, so the
+                                                            definitions of the body are placed like those of a function body under `pre` *)
 
 Inductive ctxk := CTop | CClass | CFunc.
 
@@ -194,6 +198,17 @@ Fixpoint place_item (d : dcfg) (fx : fixes) (prefix : string) (ctx : ctxk) (it :
       match ctx with CTop => gen_insert fx (priv_json_path d jtype name) mk st | _ => inl DGenInClass end
   | IGenJson jtype name mk =>
       match ctx with CTop => gen_insert fx (jtype ++ "/" ++ name) mk st | _ => inl DGenInClass end
+  | IAt pre inner =>
+      (* a call statement is not a class member (parse_class_content accepts definitions only) *)
+      match ctx with
+      | CClass => inl DGenInClass
+      | _ =>
+          (fix go (l : list item) (s : dstate) : derr + dstate :=
+             match l with
+             | [] => inr s
+             | x :: r => match place_item d fx pre CFunc x s with inl e => inl e | inr s' => go r s' end
+             end) inner st
+      end
   end.
 
 Fixpoint place_list (d : dcfg) (fx : fixes) (prefix : string) (ctx : ctxk) (l : list item) (st : dstate) : derr + dstate :=
@@ -226,6 +241,9 @@ Fixpoint docs_item (d : dcfg) (fx : fixes) (prefix : string) (ctx : ctxk) (it : 
       ok_or_nil (new_path d fx (match ctx with CFunc => "" | _ => prefix end) jtype name) (fun pn => [(true, fst pn, mk)])
   | IGenPriv jtype name mk => [(true, priv_json_path d jtype name, mk)]
   | IGenJson jtype name mk => [(true, jtype ++ "/" ++ name, mk)]
+  | IAt pre inner =>
+      (* documented: a lazy body means what it means where it is WRITTEN (its own class), not where it is expanded *)
+      (fix go (l : list item) := match l with [] => [] | x :: r => (docs_item d fx pre CFunc x ++ go r)%list end) inner
   end.
 Fixpoint docs_list (d : dcfg) (fx : fixes) (prefix : string) (ctx : ctxk) (l : list item) : list (bool * string * nat) :=
   match l with [] => [] | x :: r => (docs_item d fx prefix ctx x ++ docs_list d fx prefix ctx r)%list end.
@@ -242,11 +260,13 @@ Fixpoint no_gen (it : item) : bool :=
   | IClass _ ms => forallb no_gen ms
   | INew _ _ _ => true
   | IGenPriv _ _ _ | IGenJson _ _ _ => false
+  | IAt _ inner => forallb no_gen inner
   end.
 Fixpoint no_nested (it : item) : bool :=
   match it with
   | IFunc _ _ inner => match inner with [] => true | _ => false end
   | IClass _ ms => forallb no_nested ms
+  | IAt _ inner => forallb no_nested inner
   | _ => true
   end.
 Definition side (fx : fixes) (prog : list item) : bool :=
